@@ -526,6 +526,8 @@ func runAdversaryTCP(pt, pj transcript) {
 	reflect("T/dialer/reflect/forged-identity", "intruder@localhost", "intruder@localhost")
 	reflect("T/dialer/reflect/impersonate-known-node", victim.Name(), victim.Name())
 
+	runRogueTCP(d2, victim, st, jn)
+
 	// after the honest peer has gone, its recorded Join must be worthless
 	if rn, err := peer.Network().Node(victim.Name()); err == nil {
 		rn.Disconnect()
